@@ -281,7 +281,8 @@ async fn isolation(pki: &Pki) -> Outcome {
     let (addr, _h) = step!("C07", "server start", start_server(pki, 0));
     let c = step!("C07", "connect", lib_connect(pki, addr, 0).await);
     // names that differ only in the namespace, only in the topic, by a prefix
-    let names = ["/isol-aaa/topic", "/isol-bbb/topic", "/isol-aaa/topic2", "/isol-aaa/other", "/isol-aaaa/topic"];
+    // ... and names whose namespace and topic concatenate to the same text (the '/' sits elsewhere)
+    let names = ["/isol-aaa/topic", "/isol-bbb/topic", "/isol-aaa/topic2", "/isol-aaa/other", "/isol-aaaa/topic", "/isolx/yzzz", "/isolxy/zzz", "/isolxyz/zz_"];
     let mut subs = Vec::new();
     for n in names {
         subs.push(step!("C07", "open subscriber", c.subscriber(n).with_decoder(StringCodec).open().await));
@@ -850,7 +851,7 @@ async fn run_case(pki: &Pki, i: usize) -> Outcome {
 }
 const NAMES: [&str; 17] = [
     "registration rules on raw streams (invalid names, wrong first frames, role mismatch)",
-    "isolation of five similar topic names",
+    "isolation of eight similar topic names (same namespace, same topic, prefixes, a shifted slash)",
     "pub/sub fidelity: no batching",
     "pub/sub fidelity: batches of 3, empty last payload",
     "pub/sub fidelity: batches of 4 every 40 ms with idle periods",
